@@ -339,7 +339,9 @@ def traceLine (toks : List String) : String :=
                           if idx < bodyEnd then
                             let listed := (((vl[idx]?).getD "-").splitOn "@").headD "-"
                             let mlist := hexOf ((validOps (Gen.table c.version) c s).map Gen.asU8)
-                            if listed != "-" && listed != (if mlist.isEmpty then "e" else mlist) then
+                            if listed == "-" && (kv toks "valid").isSome then
+                              .error s!"step {idx}: the body loop did not report the candidate list it drew from (the draw no longer goes through weighted_choice?)"
+                            else if listed != "-" && listed != (if mlist.isEmpty then "e" else mlist) then
                               .error s!"step {idx}: the candidate list the body loop drew from differs from the guards: loop={listed} guards={mlist} top={stackStr (s.stack.take 6)} memo={s.memo.length}"
                             else
                             if !(Gen.table c.version).contains ins.op then .error s!"step {idx}: {ins.op.name} not in the protocol table"
